@@ -368,4 +368,7 @@ def run(run, model):
     run.rule("R14.3", "both pipelines gate on the same diagnostics: shared with C03 R03.1 (stage gating; resolver diagnostics merged in every package type-check)")
     run.try_rule(c03.r03_1, model)
     run.try_rule(r14_4, model)
+    run.rule("R14.13", "a project accepted one way is accepted the other: the separate pipeline skips no import (shared with C16 R16.9; the "
+                       "whole-program pipeline treats every import as a package edge)")
+    run.try_rule(c16.no_import_skipped, model, "R14.13")
     run.assume("package ids (sequential vs hash-derived) and gensym numbering differ between the pipelines by design; whether that is unobservable is a semantic question this check does not decide")
